@@ -362,6 +362,8 @@ func coqPTs(n *Node) string {
 			op = "(TMutErr " + CoqZ(p.N) + " " + CoqStr(p.Key) + " " + CoqStr(p.S) + ")"
 		case "issue":
 			op = "TIssue"
+		case "wrap_issue":
+			op = "(TErr \"delegated check failed\")"
 		case "setfield":
 			op = "(TSetField " + CoqStr(p.Key) + " " + CoqStr(p.S) + ")"
 		case "setfirst":
@@ -435,7 +437,7 @@ func CoqSchema(n *Node, order map[*Node][]string) string {
 	case KCustom:
 		return "(SCustom conv_string " + coqTest(n, &n.Tests[0], "") + ")"
 	case KPre:
-		return fmt.Sprintf("(SPre (PRE %d %s) %s)", n.PreID, map[string]string{"upper": "PreUpper", "trim": "PreTrim", "err": "PreErr", "issue": "PreIssue"}[n.PreOp], CoqSchema(n.Elem, order))
+		return fmt.Sprintf("(SPre (PRE %d %s) %s)", n.PreID, map[string]string{"upper": "PreUpper", "trim": "PreTrim", "err": "PreErr", "issue": "PreIssue", "wrap": "PreWrap"}[n.PreOp], CoqSchema(n.Elem, order))
 	}
 	// primitive
 	co := ""
